@@ -1,13 +1,163 @@
-/- C09 — property theorems (first step: the regularisation rule; extended below). -/
-import SkNet.Model.Embedding
-import SkNet.Spec.Embedding
+/-
+C09 — Spectral and SVD embeddings satisfy the equations that define them.
+
+All theorems are about the executable model `SkNet/Model/Embedding.lean` (the one the driver runs with `Float`
+against the implementation on every check), for an arbitrary linearly ordered field `α` (ℚ, ℝ, …).  The two
+non-field functions of the code enter as the record `F : Fn α` (`F.sqrt`, `F.pow`); what the theorems need of them
+is stated as hypotheses on the values they are actually applied to (`F.sqrt d * F.sqrt d = d` …), so that the
+examples can instantiate them over ℚ.  ARPACK is the parameter `solver`; its contract (`IsEigenpairs`,
+`IsSingularTriplets`) is a hypothesis and is checked on every captured solver output by the `contract` lines.
+-/
+import SkNet.Lemmas.EmbeddingSpectral
+import SkNet.Lemmas.EmbeddingNormalize
+
+set_option linter.unusedSectionVars false
+
+open Finset
 
 namespace SkNet.C09
 open SkNet SkNet.Embedding
 
-/-- `_get_regularization` leaves a non-negative parameter untouched. -/
-theorem getRegularization_nonneg (reg : Int) (c : Bool) (h : ¬ reg < 0) :
-    getRegularization reg c = reg := by
-  simp [getRegularization, h]
+variable {α : Type} [Field α] [LinearOrder α] [IsStrictOrderedRing α]
+
+/-! ### automatic regularisation only when disconnected -/
+
+/-- **`regularization_rule`**: the Laplacian / multiplier is regularised iff the parameter is positive, or it is
+    negative and the graph is not (strongly) connected; the factor then is the parameter, resp. its absolute value. -/
+theorem regularization_rule (reg : α) (connected : Bool) :
+    (0 < getRegularization reg connected ↔ (0 < reg ∨ (reg < 0 ∧ connected = false))) ∧
+    (0 < reg → getRegularization reg connected = reg) ∧
+    (reg < 0 → connected = false → getRegularization reg connected = -reg) ∧
+    (reg < 0 → connected = true → getRegularization reg connected = 0) := by
+  unfold getRegularization absv
+  refine ⟨?_, ?_, ?_, ?_⟩
+  · by_cases h : reg < 0
+    · cases connected
+      · simp [h]
+      · simp [h]; exact le_of_lt h
+    · simp [h]
+  · intro h; simp [not_lt.mpr (le_of_lt h)]
+  · intro h hc; simp [h, hc]
+  · intro h hc; simp [h, hc]
+
+example : getRegularization (-1 : ℚ) false = 1 ∧ getRegularization (-1 : ℚ) true = 0 ∧
+    getRegularization (2 : ℚ) false = 2 := by decide
+
+/-! ### Spectral -/
+
+section spectral
+variable (F : Fn α) (nRow nCol : Nat) (b : Mat α) (nnz : Nat) (fb : Bool) (nc : Int) (regParam : α) (nm : Bool)
+  (solver : LapOp α → Mat α → Nat → Vec α × Mat α)
+
+/-- number of nodes of the graph `Spectral.fit` works on (rows + columns on the bipartite route) -/
+abbrev spN : Nat := (getAdjacency nRow nCol b false fb).2.1
+/-- its adjacency matrix (`[[0,B],[Bᵀ,0]]` on the bipartite route) -/
+abbrev spAdj : Mat α := (getAdjacency nRow nCol b false fb).2.2
+/-- the regularisation actually applied -/
+abbrev spReg : α := getRegularization regParam (stronglyConnected (spN nRow nCol b fb) (spAdj nRow nCol b fb))
+/-- the operator handed to the solver -/
+abbrev spOp (rw : Bool) : LapOp α := lapInit F (spN nRow nCol b fb) (spAdj nRow nCol b fb) (spReg nRow nCol b fb regParam) rw
+/-- number of pairs asked from the solver -/
+abbrev spK : Nat := (spectralK nc (spN nRow nCol b fb)).toNat
+/-- what the solver returned -/
+abbrev spSol (rw : Bool) : Vec α × Mat α :=
+  solver (spOp F nRow nCol b fb regParam rw) (spAdj nRow nCol b fb) (spK nRow nCol b fb nc)
+
+/-- a successful `Spectral.fit` is `spectralPost` of the solver output on a graph with at least two nodes -/
+theorem spectralFit_ok (rw : Bool) {out : SpectralOut α}
+    (h : spectralFit F nRow nCol b nnz fb nc rw regParam nm solver = .ok out) :
+    2 ≤ spN nRow nCol b fb ∧
+    out.eigenvalues = (spectralPost F (spN nRow nCol b fb) (spOp F nRow nCol b fb regParam rw) rw nm
+        (spSol F nRow nCol b fb nc regParam solver rw).1 (spSol F nRow nCol b fb nc regParam solver rw).2).1 ∧
+    out.eigenvectors = (spectralPost F (spN nRow nCol b fb) (spOp F nRow nCol b fb regParam rw) rw nm
+        (spSol F nRow nCol b fb nc regParam solver rw).1 (spSol F nRow nCol b fb nc regParam solver rw).2).2.1 := by
+  unfold spectralFit at h
+  split at h
+  · cases h
+  · dsimp only at h
+    split at h
+    · cases h
+    · rename_i hk
+      have hout := Except.ok.inj h
+      refine ⟨?_, ?_, ?_⟩
+      · have : 0 < spectralK nc (spN nRow nCol b fb) := by
+          simpa using hk
+        unfold spectralK checkNComponents at this
+        split at this <;> omega
+      · rw [← hout]; unfold spectralResult; split <;> rfl
+      · rw [← hout]; unfold spectralResult; split <;> rfl
+
+/-- **C09 / Spectral, `decomposition='rw'`.**  If `fit` succeeds and the solver output satisfies its contract for
+    the operator it was given, every returned pair is an eigenpair of the (regularised) random-walk transition
+    matrix `P = D⁻¹(A + α 11ᵀ/n)` of the graph: `P · eigenvectors_[:, c] = eigenvalues_[c] · eigenvectors_[:, c]`. -/
+theorem spectral_rw_eigen {out : SpectralOut α}
+    (h : spectralFit F nRow nCol b nnz fb nc true regParam nm solver = .ok out)
+    (hsq : ∀ i, i < spN nRow nCol b fb →
+      let d := (∑ j ∈ range (spN nRow nCol b fb), mget (spAdj nRow nCol b fb) i j) + spReg nRow nCol b fb regParam
+      F.sqrt d * F.sqrt d = d)
+    (hsol : IsEigenpairs (spOp F nRow nCol b fb regParam true) (spAdj nRow nCol b fb)
+      (spSol F nRow nCol b fb nc regParam solver true).1 (spSol F nRow nCol b fb nc regParam solver true).2)
+    (c : Nat) (hc : c < out.eigenvalues.length) (i : Nat) (hi : i < spN nRow nCol b fb) :
+    Spec.transApply (spN nRow nCol b fb) (spAdj nRow nCol b fb) (spReg nRow nCol b fb regParam)
+        (fun j => mget out.eigenvectors j c) i
+      = vget out.eigenvalues c * mget out.eigenvectors i c := by
+  obtain ⟨hn, hval, hvec⟩ := spectralFit_ok F nRow nCol b nnz fb nc regParam nm solver true h
+  rw [hval] at hc ⊢
+  rw [hvec]
+  exact spectralPost_rw_eigen F _ (by omega) _ _ (getRegularization_nonneg _ _) nm hsq _ _ hsol c hc i hi
+
+/-- **C09 / Spectral, `decomposition='laplacian'`.**  Same for the (regularised) Laplacian `L = D − A`. -/
+theorem spectral_laplacian_eigen {out : SpectralOut α}
+    (h : spectralFit F nRow nCol b nnz fb nc false regParam nm solver = .ok out)
+    (hsol : IsEigenpairs (spOp F nRow nCol b fb regParam false) (spAdj nRow nCol b fb)
+      (spSol F nRow nCol b fb nc regParam solver false).1 (spSol F nRow nCol b fb nc regParam solver false).2)
+    (c : Nat) (hc : c < out.eigenvalues.length) (i : Nat) (hi : i < spN nRow nCol b fb) :
+    Spec.lapApply (spN nRow nCol b fb) (spAdj nRow nCol b fb) (spReg nRow nCol b fb regParam)
+        (fun j => mget out.eigenvectors j c) i
+      = vget out.eigenvalues c * mget out.eigenvectors i c := by
+  obtain ⟨hn, hval, hvec⟩ := spectralFit_ok F nRow nCol b nnz fb nc regParam nm solver false h
+  rw [hval] at hc ⊢
+  rw [hvec]
+  exact spectralPost_laplacian_eigen F _ (by omega) _ _ (getRegularization_nonneg _ _) nm _ _ hsol c hc i hi
+
+/-- **C09 / Spectral, order and the skipped pair.**  `eigenvalues_` is in increasing order for the Laplacian and in
+    decreasing order for the random walk; exactly one solver pair is not returned. -/
+theorem spectral_order (rw : Bool) {out : SpectralOut α}
+    (h : spectralFit F nRow nCol b nnz fb nc rw regParam nm solver = .ok out) :
+    (if rw then out.eigenvalues.Pairwise (· ≥ ·) else out.eigenvalues.Pairwise (· ≤ ·)) ∧
+    out.eigenvalues.length = (spSol F nRow nCol b fb nc regParam solver rw).1.length - 1 := by
+  obtain ⟨_, hval, _⟩ := spectralFit_ok F nRow nCol b nnz fb nc regParam nm solver rw h
+  rw [hval]
+  refine ⟨?_, spectralPost_length F _ _ rw nm _ _⟩
+  cases rw
+  · simpa using spectralPost_order_laplacian F _ _ nm _ _
+  · simpa using spectralPost_order_rw F _ _ nm _ _
+
+end spectral
+
+/-- **the pair that `Spectral.fit` skips is a smallest one** of the solver output (`np.argsort(values)[1:]`), and the
+    kept positions with the skipped one are exactly the positions of the solver output, each once. -/
+theorem spectral_skips_smallest (values : Vec α) (hv : 0 < values.length) :
+    ∃ i0, argsort values = i0 :: (argsort values).drop 1 ∧ i0 < values.length ∧
+      (∀ c ∈ (argsort values).drop 1, vget values i0 ≤ vget values c) ∧
+      (argsort values).Nodup ∧ ∀ x, x ∈ argsort values ↔ x < values.length :=
+  argsort_skips_smallest values hv
+
+/-! ### normalisation -/
+
+/-- **`normalize_unit`**: after `normalize(·, p=2)` every row with a non-zero entry has squared Euclidean norm 1
+    and every null row stays null (`F.sqrt` has to square back on the squared norm of the row). -/
+theorem normalize_unit (F : Fn α) (n k : Nat) (m : Mat α) (i : Nat) (hi : i < n)
+    (hsq : F.sqrt (sqNorm k m i) * F.sqrt (sqNorm k m i) = sqNorm k m i) :
+    ((∃ j, j < k ∧ mget m i j ≠ 0) → sqNorm k (normalize2 F n k m) i = 1) ∧
+    ((∀ j, j < k → mget m i j = 0) → ∀ j, mget (normalize2 F n k m) i j = 0) :=
+  ⟨normalize2_nonnull_unit F n k m i hi hsq, normalize2_null_of_null F n k m i⟩
+
+/-- a rational "square root" that is exact on the values used by the examples -/
+def sqrtQ (x : ℚ) : ℚ := if x = 25 then 5 else if x = 4 then 2 else if x = 1 then 1 else 0
+
+example : sqNorm 2 (normalize2 ⟨sqrtQ, fun x _ => x⟩ 2 2 [[3, 4], [0, 0]]) 0 = 1 ∧
+    mget (normalize2 ⟨sqrtQ, fun x _ => x⟩ 2 2 [[3, 4], [0, 0]]) 1 1 = (0 : ℚ) := by
+  decide +kernel
 
 end SkNet.C09
